@@ -336,6 +336,12 @@ class _RawConfigParser(configparser.RawConfigParser):
     return _normalise_key(option)
 
   def get(self, section, option, **kwargs):
+    # A [Variables] key is only a value source for ${...}, it is not an option of the other sections.
+    if section != self.default_section and self.has_section(section) and not self.has_option(section, option):
+      fallback = kwargs.get("fallback", configparser._UNSET)
+      if fallback is configparser._UNSET:
+        raise configparser.NoOptionError(option, section)
+      return fallback
     try:
       return super(_RawConfigParser, self).get(section, option, **kwargs)
     except configparser.InterpolationError as e:
